@@ -59,8 +59,31 @@ func lengthPrefixOf(p *an.Prog, v ssa.Value) ssa.Value {
 		return an.ResultCallTo(x, cPutUvarint, an.X("strconv", "", "Itoa"), an.X("encoding/binary", "", "AppendUvarint"), an.X("encoding/binary", "littleEndian", "PutUint32"), an.X("encoding/binary", "bigEndian", "PutUint32")) != nil
 	})
 	if !enc {
-		// PutUvarint writes into a buffer; the written slice depends on the buffer alloc: look for the call using the same buffer
-		enc = true
+		return nil
+	}
+	// the encoding must be injective in the length: no narrowing of len(x) below 32 bits on the way to the encoder
+	// (byte(len(x)) makes lengths that differ by a multiple of 256 indistinguishable)
+	isLen := func(x ssa.Value) bool {
+		call, ok := x.(*ssa.Call)
+		return ok && an.BuiltinName(call) == "len"
+	}
+	narrowed := p.DependsOn(v, func(x ssa.Value) bool {
+		cv, ok := x.(*ssa.Convert)
+		if !ok {
+			return false
+		}
+		b, isB := cv.Type().Underlying().(*types.Basic)
+		if !isB {
+			return false
+		}
+		switch b.Kind() {
+		case types.Int8, types.Uint8, types.Int16, types.Uint16:
+			return isLen(cv.X) || p.DependsOn(cv.X, isLen)
+		}
+		return false
+	})
+	if narrowed {
+		return nil
 	}
 	return found
 }
@@ -306,8 +329,10 @@ func c31(c *an.Check) {
 		}})
 	c.Gate(an.GateSpec{Rule: "MUSTCALL", Construct: "solicit Close marks the value closed", Fn: cl,
 		Sink: func(s *an.State, ins ssa.Instruction) bool {
+			// whenever Close reports success, and also whenever it has closed the underlying stream (whatever that
+			// returned): a closed stream must never be handed out by a later accept
 			ret, ok := ins.(*ssa.Return)
-			return ok && s.IsTrue(s.RetVal(ret, 0))
+			return ok && (s.IsTrue(s.RetVal(ret, 0)) || s.Executed(ins, func(i ssa.Instruction) bool { return isInvokeOf(i, "", "Close") }))
 		},
 		Reqs: []an.Req{{Name: "err set", Holds: func(s *an.State, at ssa.Instruction) bool {
 			return s.Executed(at, func(ins ssa.Instruction) bool { v, _, ok := storeTo(ins, errF); return ok && !isNilConst(v) })
